@@ -209,9 +209,82 @@ def local_refs(lc, kinds):
     return out
 
 
+ROLE_BY_FN = {}      # function name -> {role name used in this pack: the parameter's name in the real signature}
+
+
 def fuc_param(st, name):
     """Current value of a parameter of the function under contract (frame 0), from inside a helper executed in place."""
-    return st.frames[0].env[name]
+    fr = st.frames[0]
+    real = ROLE_BY_FN.get(getattr(fr.fnode, "name", None), {}).get(name, name)
+    return fr.env[real]
+
+
+class _Ctx:
+    """Clause view of a CallCtx in which the parameters are also reachable under the role names this pack uses."""
+
+    def __init__(self, c, roles):
+        object.__setattr__(self, "_c", c)
+        object.__setattr__(self, "_roles", roles)
+
+    def __getattr__(self, k):
+        c = object.__getattribute__(self, "_c")
+        if k == "args":
+            d = dict(c.args)
+            for role, real in object.__getattribute__(self, "_roles").items():
+                if real in d:
+                    d[role] = d[real]
+            return d
+        return getattr(c, k)
+
+    def __setattr__(self, k, v):
+        setattr(object.__getattribute__(self, "_c"), k, v)
+
+    def __getitem__(self, name):
+        return self.args[name]
+
+
+def _guard(fn, roles):
+    """Pack callbacks never crash the check on an unexpected code shape: the function is reported out of the verified subset
+    (-> native replay -> UNDECIDED), and they see renamed parameters under their role names."""
+    from pyvc.ops import Unsupported
+    if fn is None:
+        return None
+
+    def wrapped(c, *rest):
+        try:
+            return fn(_Ctx(c, roles) if roles and hasattr(c, "args") else c, *rest)
+        except Unsupported:
+            raise
+        except Exception as e:  # noqa
+            raise Unsupported(f"contract clause not applicable to this code shape ({type(e).__name__}: {e})")
+    return wrapped
+
+
+def bind_roles(contracts_):
+    """Parameters are bound BY POSITION to the real signature: renaming a parameter of a function under contract keeps it verified."""
+    for c in contracts_:
+        roles = {}
+        if "::" in c.target and not c.assumed:
+            rel, qual = c.target.split("::")
+            try:
+                fn = loader.module(rel).functions.get(qual)
+            except (OSError, SyntaxError):
+                fn = None
+            if fn is not None:
+                real = [a.arg for a in fn.args.posonlyargs + fn.args.args + fn.args.kwonlyargs]
+                mine = [p[0] for p in c.params]
+                if len(real) == len(mine) and real != mine:
+                    roles = {m_: r_ for m_, r_ in zip(mine, real) if m_ != r_}
+                    c.params = [(r_, mk) for r_, (_m, mk) in zip(real, c.params)]
+                    ROLE_BY_FN[fn.name] = roles
+        c.requires, c.hyps, c.returns = _guard(c.requires, roles), _guard(c.hyps, roles), _guard(c.returns, roles)
+        c.ensures = [(lbl, _guard(f, roles)) for lbl, f in c.ensures]
+        for r in c.raises:
+            r.when = _guard(r.when, roles)
+        if c.result_maker is not None:
+            rm = c.result_maker
+            c.result_maker = (lambda rm_, roles_: lambda ex, st, ctx: rm_(ex, st, _Ctx(ctx, roles_) if roles_ else ctx))(rm, roles)
+    return contracts_
 
 
 def ser_loop_inv(lc):
@@ -314,7 +387,7 @@ def contracts(reg):
     out.extend(decoder_contracts())
     out.extend(cli_contracts())
     out.extend(store_site_contracts(reg))
-    return out
+    return bind_roles(out)
 
 
 # ------------------------------------------------------------- the decoder --
